@@ -36,6 +36,10 @@ def labelled(rows: int, cols: int | None, entries: str):
         a = idx * 1.25 + 0.5
     elif entries == "complex":
         a = (idx + 1) + 1j * ((idx * 7919 + 13) % 10007)
+    elif entries == "corner":  # support confined to the top-left quadrant: the permuted operator has empty trailing rows / columns, so a
+        # sparse result whose shape is inferred from the occupied indices comes out too small (added after seeded change C01-13)
+        rr, cc = np.divmod(idx, c)
+        a = np.where((rr < (rows + 1) // 2) & (cc < (c + 1) // 2), (idx * 7919 + 13) % 1000003 + 1, 0)
     elif entries in ("neardiag", "nearzero"):  # looks diagonal / zero to np.allclose, is not (entries k * 2^-40, exact)
         a = (idx % 8191 + 1) * 2.0 ** -40
         if entries == "neardiag":
@@ -170,7 +174,7 @@ def index_cases(tier, seed):
                             forms += ["omitted"]
                         for dimform in forms:
                             for storage in ("dense", "csr"):
-                                ents = ("sym", "int", "intB", "float", "complex", "ctiny", "neardiag", "nearzero") if storage == "dense" else ("int", "complex")
+                                ents = ("sym", "int", "intB", "float", "complex", "ctiny", "neardiag", "nearzero") if storage == "dense" else ("int", "complex", "corner")
                                 if R * C > 400:
                                     ents = ents[:2]
                                 for ent in ents:
